@@ -119,7 +119,14 @@ func modKey(pd string, limb bool) string {
 	return pd
 }
 
-func translateFunc(fi *funcInfo) {
+func translateFunc(fi *funcInfo) { translateFuncMode(fi, false) }
+
+// the CHECKED variant `<name>_ok : … → Bool`: true iff the call reaches a return without an index or slice bound
+// violation, a negative make, a division by zero, a nil dereference of a nil-able parameter, an explicit panic or an
+// exhausted unbounded loop, here or in a translated callee.
+func translateFuncChk(fi *funcInfo) { translateFuncMode(fi, true) }
+
+func translateFuncMode(fi *funcInfo, chk bool) {
 	curLimb = limbMode[fi.key]
 	defer func() { curLimb = false }()
 	defer func() {
@@ -132,6 +139,7 @@ func translateFunc(fi *funcInfo) {
 		}
 	}()
 	t := newTr(fi, fi.pkg.TypesInfo)
+	t.chk = chk
 	t.opt = nilCompared(t.info, fi.decl.Body)
 	sig := fi.obj.Type().(*types.Signature)
 	namedPre := ""
@@ -179,7 +187,12 @@ func translateFunc(fi *funcInfo) {
 	if fi.fuel {
 		t.retTy = "(" + t.retTy + " × Bool)"
 	}
-	head := "def " + fi.lean
+	lname := fi.lean
+	if chk {
+		t.retTy = "Bool"
+		lname = fi.lean + "_ok"
+	}
+	head := "def " + lname
 	for i, p := range fi.params {
 		ty := leanType(p.Type())
 		if fi.optParam[i] {
@@ -190,6 +203,9 @@ func translateFunc(fi *funcInfo) {
 	head += " : " + t.retTy + " :="
 	k := cont{top: true,
 		fall: func() string {
+			if chk {
+				return "true"
+			}
 			if t.nres != 0 {
 				return "default /- unreachable: Go requires a return -/"
 			}
@@ -198,9 +214,16 @@ func translateFunc(fi *funcInfo) {
 		retTerm: func(term string) string { return term }}
 	body := namedPre + t.stmts(fi.decl.Body.List, k)
 	doc := fmt.Sprintf("/-- `%s` (%s). -/\n", fi.key, filepath.Base(fset.Position(fi.decl.Pos()).Filename))
-	d := &leanDef{name: fi.lean, text: doc + head + "\n" + indent(body, 1) + "\n", deps: t.deps, pos: fi.decl.Pos()}
-	defsByPkg[modKey(fi.pkgdir, limbMode[fi.key])] = append(defsByPkg[modKey(fi.pkgdir, limbMode[fi.key])], d)
-	defByName[fi.lean] = d
+	if chk {
+		doc = fmt.Sprintf("/-- checked variant of `%s`: no run-time panic on this input. -/\n", fi.key)
+	}
+	d := &leanDef{name: lname, text: doc + head + "\n" + indent(body, 1) + "\n", deps: t.deps, pos: fi.decl.Pos()}
+	mk := modKey(fi.pkgdir, limbMode[fi.key])
+	if chk {
+		mk += "#chk"
+	}
+	defsByPkg[mk] = append(defsByPkg[mk], d)
+	defByName[lname] = d
 }
 
 func translateGlobal(k string) string {
@@ -344,6 +367,7 @@ func main() {
 			continue
 		}
 		translateFunc(fi)
+		translateFuncChk(fi)
 		translated = append(translated, k)
 	}
 	if len(failures) > 0 {
@@ -366,6 +390,35 @@ func main() {
 		}
 		b.WriteString("end I3.Gen.Go\n")
 		writeIfChanged(filepath.Join(out, pkgModule[pd]+".lean"), b.String())
+	}
+	// checked variants: one module per value-mode module and per limb-mode module
+	allNormal := []string{}
+	for _, pd := range pkgOrder {
+		allNormal = append(allNormal, pkgModule[pd])
+	}
+	allNormal = append(allNormal, limbModule["ff"], limbModule["ffg"])
+	emitChk := func(mk, mod string, imports []string) {
+		var b strings.Builder
+		b.WriteString("-- GENERATED by tools/gengo (T6, checked variants) — do not edit\n")
+		b.WriteString("import I3.Exec.Go\nimport I3.Exec.GoExt\n")
+		for _, im := range allNormal {
+			b.WriteString("import I3.Gen." + im + "\n")
+		}
+		for _, im := range imports {
+			b.WriteString("import I3.Gen.GoChk" + strings.TrimPrefix(im, "Go") + "\n")
+		}
+		b.WriteString("set_option linter.unusedVariables false\nset_option maxRecDepth 4096\nnamespace I3.Gen.Go\n\n")
+		for _, d := range topo(defsByPkg[mk]) {
+			b.WriteString(d.text + "\n")
+		}
+		b.WriteString("end I3.Gen.Go\n")
+		writeIfChanged(filepath.Join(out, "GoChk"+strings.TrimPrefix(mod, "Go")+".lean"), b.String())
+	}
+	for _, pd := range pkgOrder {
+		emitChk(pd+"#chk", pkgModule[pd], pkgImports[pd])
+	}
+	for _, pd := range []string{"ff", "ffg"} {
+		emitChk(modKey(pd, true)+"#chk", limbModule[pd], nil)
 	}
 	for _, pd := range []string{"ff", "ffg"} {
 		var b strings.Builder
